@@ -26,6 +26,7 @@ INF = (3, (), (1,))
 REL = Fraction(1, 10 ** 24)      # Decimal results involving a division (prec 35 / 28)
 ABS18 = Fraction(1, 10 ** 18)    # property C10: "nothing beyond 1e-18"
 ABS4 = Fraction(1, 10 ** 4)
+BAND_IN = 1 - Fraction(1, 10 ** 24)   # a request this close to a limit may go either way (Decimal rounding)
 
 _CSV_COLS = ["underlyingAsset", "name", "symbol", "decimals", "baseLTVasCollateral", "reserveLiquidationThreshold",
              "reserveLiquidationBonus", "reserveFactor", "usageAsCollateralEnabled", "borrowingEnabled",
@@ -125,7 +126,20 @@ class Driver:
             elif op == "setcoll":
                 m.change_collateral(tok[ev["t"]], ev["c"])
             elif op == "update":
-                m.update()
+                self.liq_steps = []
+                self.liq_before = self.project()
+                orig = m._do_liquidate
+
+                def wrapped(c, d, cover, _o=orig):
+                    before = self.project()
+                    n = len(self.actions)
+                    _o(c, d, cover)
+                    self.liq_steps.append((before, self.project(), self.actions[n:]))
+                m._do_liquidate = wrapped
+                try:
+                    m.update()
+                finally:
+                    del m._do_liquidate
             elif op == "nextbar":
                 self.set_row(ev["row"])
             elif op == "read":
@@ -250,7 +264,11 @@ def compare_state(drv: Driver, st, tally):
 
 def compare_views(drv: Driver, view, tally, subset=None):
     out = []
-    v = drv.views(subset)
+    try:
+        v = drv.views(subset)
+    except Exception as e:  # a derived view that cannot even be read does not equal its recomputation
+        tally("C13/view_readable")
+        return [Mismatch("C13", "view_raises", f"reading the derived views raised {type(e).__name__}: {e}")]
     from demeter.aave import AaveV3CoreLib
     for key, code in v.items():
         if key in ("supplies", "borrows"):
@@ -319,7 +337,7 @@ def compare_actions(ev, acts_code, acts_spec, tally):
     if ev["op"] == "update":
         tally("C12/action_count")
         if len(acts_code) != len(acts_spec):
-            out.append(Mismatch("C12", "liquidation_count", f"{len(acts_code)} liquidation records, spec {len(acts_spec)}"))
+            out.append(Mismatch("C12", "pair(info)", f"{len(acts_code)} liquidation records, spec policy {len(acts_spec)}"))
             return out
         for a, s in zip(acts_code, acts_spec):
             tally("C12/action_fields")
@@ -330,8 +348,8 @@ def compare_actions(ev, acts_code, acts_spec, tally):
                           ("collateral_after", s["coll_after"]), ("variable_debt_after", s["debt_after"]),
                           ("health_factor_before", s["hf_before"])):
                 cv = getattr(a, f)
-                if not cmp_q(Decimal(cv), Q(sv), REL, ABS18):
-                    out.append(Mismatch("C12", f"action.{f}", f"LiquidationAction.{f} code {cv} spec {float(Q(sv))}"))
+                if not cmp_q(Decimal(cv), Q(sv), REL, ABS18):   # e.g. repaying less than the close factor is allowed
+                    out.append(Mismatch("C12", "pair(info)", f"LiquidationAction.{f} code {cv} spec policy {float(Q(sv))}"))
         return out
     kinds = {"supply": "SupplyAction", "withdraw": "WithdrawAction", "borrow": "BorrowAction", "repay": "RepayAction"}
     tally("C10/action_count")
@@ -355,7 +373,101 @@ OUTCOME_OWNER = {"borrow": "C11", "withdraw": "C11", "setcoll": "C11", "supply":
                  "nextbar": "C13", "read": "C13"}
 
 
-def replay_path(uni: Universe, scn, steps, read_mode, tally):
+def q_json(fr):
+    from .common import int_to_limbs
+    fr = Fraction(fr)
+    return [(fr > 0) - (fr < 0), list(int_to_limbs(abs(fr.numerator))), list(int_to_limbs(fr.denominator))]
+
+
+def st_json(uni, proj, row):
+    """code projection -> the spec's state record (JSON form)."""
+    z = Fraction(0)
+    return {"w": {t: q_json(proj["w"][t]) for t in uni.tokens},
+            "sb": {t: q_json(proj["sb"].get(t, z)) for t in uni.tokens},
+            "sc": {t: bool(proj["sc"].get(t, False)) for t in uni.tokens},
+            "bb": {t: q_json(proj["bb"].get(t, z)) for t in uni.tokens}, "row": row, "k": 0}
+
+
+def helper_probes(drv: Driver, step_no):
+    """C11: the max-withdraw / max-borrow helper amounts (code's exact values) as probe events, with the code's own
+    outcome on a deep copy; the spec's outcome is evaluated by TLC (Trace_AaveProbe)."""
+    probes = []
+    uni = drv.u
+    m = drv.market
+    proj = drv.project()
+    stj = st_json(uni, proj, drv.row)
+
+    def try_on_copy(ev):
+        d2 = copy.deepcopy(drv)
+        return d2.apply(ev)[0]
+    for k in list(m._supplies.keys()):
+        t = k.name
+        try:
+            mw = m.get_max_withdraw_amount(k)
+            supplied = m.get_supply(k).amount
+        except Exception as e:
+            probes.append({"kind": "helper_raises", "what": f"get_max_withdraw_amount({t}): {type(e).__name__}: {e}", "step": step_no})
+            continue
+        base = {"kind": "step", "st": stj, "step": step_no, "helper": "max_withdraw", "token": t,
+                "value": str(mw), "supplied": str(supplied)}
+        probes.append({**base, "tag": "bounds", "ok": bool(0 <= mw <= supplied), "ev": {"op": "read", "v": 0}})
+        if mw > 0:
+            ev = {"op": "withdraw", "t": t, "a": tuple_q(frac(mw))}
+            probes.append({**base, "tag": "at", "ev": json_ev(ev), "code_out": try_on_copy(ev), "expect": "ok"})
+            ev = {"op": "withdraw", "t": t, "a": tuple_q(frac(mw) * BAND_IN)}   # tolerance band at the limit (DESIGN 2.9)
+            probes.append({**base, "tag": "at_band", "ev": json_ev(ev)})
+        beyond = mw * Decimal("1.001")
+        if mw >= Decimal("0.01") and beyond < supplied:
+            ev = {"op": "withdraw", "t": t, "a": tuple_q(frac(beyond))}
+            probes.append({**base, "tag": "beyond", "ev": json_ev(ev), "code_out": try_on_copy(ev), "expect": "reject"})
+    if m.total_collateral_value > 0:
+        for t in uni.tokens:
+            if not uni.risk[t]["canBorrow"]:
+                continue
+            try:
+                mb = m.get_max_borrow_amount(uni.tok[t])
+            except Exception as e:
+                probes.append({"kind": "helper_raises", "what": f"get_max_borrow_amount({t}): {type(e).__name__}: {e}", "step": step_no})
+                continue
+            base = {"kind": "step", "st": stj, "step": step_no, "helper": "max_borrow", "token": t, "value": str(mb)}
+            if mb > 0:
+                ev = {"op": "borrow", "t": t, "a": tuple_q(frac(mb))}
+                probes.append({**base, "tag": "at", "ev": json_ev(ev), "code_out": try_on_copy(ev), "expect": "ok"})
+                ev = {"op": "borrow", "t": t, "a": tuple_q(frac(mb) * BAND_IN)}
+                probes.append({**base, "tag": "at_band", "ev": json_ev(ev)})
+                beyond = mb / Decimal("0.99") * Decimal("1.001")
+                ev = {"op": "borrow", "t": t, "a": tuple_q(frac(beyond))}
+                probes.append({**base, "tag": "beyond", "ev": json_ev(ev), "code_out": try_on_copy(ev), "expect": "reject"})
+    return probes
+
+
+def tuple_q(fr):
+    from .common import int_to_limbs
+    return ((fr > 0) - (fr < 0), int_to_limbs(abs(fr.numerator)), int_to_limbs(fr.denominator))
+
+
+def json_ev(ev):
+    return {k: (list(map(lambda x: list(x) if isinstance(x, tuple) else x, v)) if isinstance(v, tuple) else v) for k, v in ev.items()}
+
+
+def liq_probes(drv: Driver, step_no):
+    """C12: every liquidation step the code performed in update(): (state before, state after, action record)."""
+    out = [{"kind": "liqrun", "step": step_no, "st": st_json(drv.u, drv.liq_before, drv.row),
+            "st2": st_json(drv.u, drv.project(), drv.row),
+            "acts": [{"collateral": a.collateral_token, "debt": a.debt_token}
+                     for _, _, acts in drv.liq_steps for a in acts]}]
+    for before, after, acts in getattr(drv, "liq_steps", []):
+        if len(acts) != 1:
+            out.append({"kind": "liq_no_record", "step": step_no, "what": f"{len(acts)} action records for one liquidation step"})
+            continue
+        a = acts[0]
+        out.append({"kind": "liqstep", "step": step_no, "st": st_json(drv.u, before, drv.row), "st2": st_json(drv.u, after, drv.row),
+                    "act": {"collateral": a.collateral_token, "debt": a.debt_token,
+                            "seized": q_json(frac(Decimal(a.collateral_used))), "repaid": q_json(frac(Decimal(a.variable_delt_liquidated)))}})
+    return out
+
+
+def replay_path(uni: Universe, scn, steps, read_mode, tally, probes=None, probe_helpers=False):
     """steps: list of (ev, out, acts, st, view) from the spec.  Returns (list of Mismatch, step index) - stops at first."""
     drv = Driver(uni)
     for ev in scn:
@@ -377,16 +489,28 @@ def replay_path(uni: Universe, scn, steps, read_mode, tally):
             mm.append(Mismatch(OUTCOME_OWNER[ev["op"]], "outcome", f"{ev['op']} {fmt_ev(ev)}: code {o} ({exc}), spec {out}"))
         if not mm:
             mm += compare_actions(ev, new, acts, tally)
-            mm += compare_state(drv, st, tally)
-            if read_mode == "all" or ev["op"] == "read" or i == len(steps) - 1:
+            if ev["op"] != "update":
+                mm += compare_state(drv, st, tally)
+            elif not mm and compare_state(drv, st, lambda c: None):
+                mm.append(Mismatch("C12", "pair(info)", "state after update() differs from the policy prediction"))
+            if mm and all(m.clause == "pair(info)" for m in mm):
+                pass
+            elif read_mode == "all" or ev["op"] == "read" or i == len(steps) - 1:
                 subset = None
                 if read_mode != "all" and ev["op"] == "read":
                     subset = VIEW_GROUPS[ev["v"] % len(VIEW_GROUPS)::3]
                 mm += compare_views(drv, view, tally, subset)
+        if probes is not None:
+            if ev["op"] == "update" and o == "ok":
+                probes.extend(liq_probes(drv, i))
+            if probe_helpers and not mm and (i == len(steps) - 1 or i % 3 == 0):
+                probes.extend(helper_probes(drv, i))
         if any(m.clause != "pair(info)" for m in mm):
             return [m for m in mm if m.clause != "pair(info)"], i
-        if mm:  # a different but possibly legal liquidation pair: the rest of the path follows another state
-            tally("info/liquidation_pair_differs")
+        if mm:
+            # a different but possibly legal liquidation (pair, count or amount): decided by the relational probes
+            # (Trace_AaveProbe: LiqStepOK / LiqRunOK); the rest of the path would follow another state
+            tally("info/liquidation_differs_from_policy")
             return [], i
     return [], len(steps)
 
